@@ -16,11 +16,11 @@ NOT_BUILT_REASON = "check not built yet in this round (runtime monitoring applie
 TECHNIQUES = {
     "C01": "runtime monitoring: postcondition oracle (float64 reference coordinate maps written from the documented anchors) evaluated on every observed call of the real Grid/Cube maps over generated and derived grids; sys.monitoring line coverage of the anchor functions",
     "C02": "runtime monitoring, differential: every observed index<->world map and header conversion of the real code is compared with SimpleITK executing the same geometry",
-    "C03": "runtime monitoring: contract wrappers (postconditions) installed on the real Grid / Cube derivation methods observe direct calls and random chains of up to three derivations",
+    "C03": "runtime monitoring: contract wrappers (pre-state snapshot + postconditions) installed on the real Grid / Cube derivation methods, the copying accessors and clone / deepcopy observe direct calls, random chains of up to three derivations and copies taken mid-chain; the grid a result is derived from must come out unchanged",
     "C04": "runtime monitoring: conservation oracle (linear ramp image + field-of-view tracker) over observed operation chains on real images, batches and flow fields",
     "C05": "runtime monitoring, differential: observed resampling results of every sampling API against SimpleITK.Resample on the same headers, incl. module reuse histories",
     "C06": "runtime monitoring: agreement monitor between all evaluation routes of one transform object (point map, disp, flow, tensor, point-set and image transformers) through the coordinate oracle",
-    "C07": "runtime monitoring: history monitor composing each real transform with its inverse before and after parameter changes, inverse read with and without the call hook",
+    "C07": "runtime monitoring: history monitor composing each real transform with its inverse before and after parameter changes, inverse read with and without the call hook, repeated evaluation (statelessness) and operand-form pairs of the matrix composition",
     "C08": "runtime monitoring: reference-model monitor (numpy linear algebra) on observed compositions and rotation conversions, incl. transform getters/setters",
     "C09": "runtime monitoring of operation histories: after every step of a random history the real object is compared with a fresh transform built from its current state (stale-state oracle); exact re-gridding oracle at new sample positions",
     "C10": "runtime monitoring: representation-independence monitor - the same world-space field observed through all four vector representations, grids and flow operations",
@@ -32,7 +32,7 @@ TECHNIQUES = {
     "C16": "runtime monitoring: axiom monitors (minimum, range, symmetry, invariance, mask and reduction relations) on observed values of every image loss and module",
     "C17": "runtime monitoring: analytic values, null spaces, homogeneity and unit conversions of every regulariser observed on generated fields",
     "C18": "runtime monitoring: round-trip and cross-reader monitor (deepali <-> SimpleITK in both directions, header text parser, read sequences in one process) on real files in a temporary directory",
-    "C19": "runtime monitoring: provenance-carrier monitor (item i carries 2^i) over single operations and random torch programs on typed batches; copy / deepcopy / pickle / collate",
+    "C19": "runtime monitoring: provenance-carrier monitor (item i carries 2^i) over single operations and random torch programs on typed batches; copy / deepcopy / pickle / collate / conversion constructors, results written with out=, grid-change histories of single images",
     "C20": "runtime monitoring: autograd vs central finite differences on the real operations; a torch function mode observes float32 casts to choose the step size, a rounding recorder attributes vanishing gradients to call sites",
 }
 
